@@ -297,6 +297,11 @@ class MoleculeSampler:
                           correspondence[target_node],
                           bonding=(bonding, compl_bonding),
                           order = int(bonding[-1]))
+        # the new bond uses up hydrogen positions on both atoms
+        for node in (source_node, correspondence[target_node]):
+            if molecule.nodes[node].get('hcount'):
+                hcount = molecule.nodes[node]['hcount'] - int(bonding[-1])
+                molecule.nodes[node]['hcount'] = max(0, hcount)
         molecule.nodes[source_node]['bonding'].remove(bonding)
         molecule.nodes[correspondence[target_node]]['bonding'].remove(compl_bonding)
 
